@@ -161,6 +161,8 @@ func (c *Case) Exec(t *eng.T) {
 	}
 	t.Nontrivial()
 	pkgRanges := pkgVarRanges()
+	var curRoots map[string]any // roots of the execution that is running (for the re-scan of the shared set)
+	rescan := func() [][2]uintptr { return append(deep.Ranges(curRoots), pkgRanges...) }
 	mk := func(judge func([]any) string) func() ([]func() any, [][2]uintptr, func([]any) string) {
 		return func() ([]func() any, [][2]uintptr, func([]any) string) {
 			w, _ := c.newWorld()
@@ -172,6 +174,7 @@ func (c *Case) Exec(t *eng.T) {
 			for _, v := range pongo2.VerifPkgVars() {
 				roots["pkg."+v.Name] = v.Ptr // everything reachable from package-level variables is shared, too
 			}
+			curRoots = roots
 			shared := deep.Ranges(roots)
 			shared = append(shared, pkgRanges...)
 			return bodies, shared, judge
@@ -182,6 +185,7 @@ func (c *Case) Exec(t *eng.T) {
 		t.AddTransitions(int64(st.Points))
 		t.AddExtra("distinct_interleavings_executed", int64(len(st.DistinctTraces)))
 		t.AddExtra("max_points_in_one_schedule", int64(st.MaxPoints))
+		t.AddExtra("shared_set_rescans", int64(st.Rescans))
 		if !st.Complete {
 			t.AddExtra("scenarios_capped", 1)
 		}
@@ -197,7 +201,7 @@ func (c *Case) Exec(t *eng.T) {
 	}
 	if c.FirstUse {
 		// nothing of this program has been executed in this process yet: the first schedules see the first use
-		st := xplore.Explore(xplore.Scenario{Name: c.Label, Make: mk(func([]any) string { return "" })}, c.Bound, c.MaxSched, t.Heartbeat)
+		st := xplore.Explore(xplore.Scenario{Name: c.Label, Make: mk(func([]any) string { return "" }), Rescan: rescan}, c.Bound, c.MaxSched, t.Heartbeat)
 		report(st)
 		t.AddExtra("first_use_scenarios", 1)
 	}
@@ -215,7 +219,7 @@ func (c *Case) Exec(t *eng.T) {
 		}
 		return ""
 	}
-	st := xplore.Explore(xplore.Scenario{Name: c.Label, Make: mk(judge)}, c.Bound, c.MaxSched, t.Heartbeat)
+	st := xplore.Explore(xplore.Scenario{Name: c.Label, Make: mk(judge), Rescan: rescan}, c.Bound, c.MaxSched, t.Heartbeat)
 	report(st)
 	t.Outcome(fmt.Sprint(len(st.DistinctOut), st.Schedules > 2))
 }
